@@ -125,6 +125,7 @@ func TestPlan(t *testing.T) {
 		binShards("^TestReport$", 16, 40, 16, 1000)
 	case "C19":
 		binShards("^TestWrite$", 16, 80, 16, 1500)
+		p.Shards = append(p.Shards, ev.ShardSpec{Name: "writetemplates-0", Test: "^TestWriteTemplates$", TimeoutS: 900})
 	case "C10":
 		p.Level = "fault_enumeration"
 		binShards("^TestKill$", 16, 25, 16, 350)
@@ -873,6 +874,39 @@ func TestWrite(t *testing.T) {
 		}
 		return execWrite(s, b, c)
 	})
+}
+
+// TestWriteTemplates: one ordinary project (a task with a glob dependency and a declared output that
+// exists) under every project directory name, run / forced / listed / formatted, from the root and a
+// nested directory, as a first invocation and after two earlier ones with an edit in between.
+func TestWriteTemplates(t *testing.T) {
+	s := ev.Open(t, "C19")
+	b := newBox(t)
+	seen := map[string]bool{}
+	src := "V := \"value\"\n\n# builds it\ntask build(\"**/*.go\") -> \"bin/out\" {\n    echo {{.V}}\n    true\n}\n\ntask default(build) {\n    echo hi\n}\n"
+	tree := []string{"main.go", "pkg/a.go", "docs/readme.md", "Makefile", "spokfile.bak"}
+	dirs := append([]string{""}, projDirPool...)
+	for _, dir := range dirs {
+		for _, nested := range []bool{false, true} {
+			for _, fl := range [][]string{nil, {"--force"}, {"--show"}, {"--fmt"}, {"--json"}, {"--vars"}} {
+				for _, hist := range []int{0, 2} {
+					c := WriteCase{Tree: tree, Class: "valid", Src: src, Flags: fl, Nested: nested, ProjDir: dir, Prior: hist, EditDep: hist > 0}
+					if fl == nil || fl[0] == "--force" || fl[0] == "--json" {
+						c.Tasks = []string{"build"}
+					}
+					s.Eval()
+					s.Class("enumerated_ordinary_project")
+					if f := execWrite(s, b, c); f != nil && !seen[f.Sig] {
+						seen[f.Sig] = true
+						s.Violation("write", f.Sig, f.Msg, f.Size, c)
+					}
+				}
+			}
+		}
+	}
+	if s.Failed() {
+		t.Fatal("violations recorded")
+	}
 }
 
 func TestKill(t *testing.T) {
